@@ -489,7 +489,7 @@ func mergeW(a, b map[string]int) map[string]int {
 func init() {
 	register(&SimProp{
 		ID: "C01",
-		Profiles: []*Profile{dataProfile("c01-general", nil), dataProfile("c01-events", map[string]int{"mutate": 30, "answer": 30, "sysreset": 5, "silent": 6, "resetfail": 4}),
+		Profiles: []*Profile{dataProfile("c01-general", nil), dataProfile("c01-events", map[string]int{"mutate": 30, "answer": 30, "sysreset": 5, "silent": 6, "resetfail": 4, "aliasburst": 6}),
 			dataProfile("c01-refstates", map[string]int{"refburst": 12, "mutate": 14, "answer": 30, "subscribe": 20})},
 		Config:   graphConfig,
 		Monitors: func() []Monitor { return []Monitor{NewMonC01()} },
